@@ -1,4 +1,5 @@
 import Vata.Proofs.Store
+import Vata.Properties.C12_Iterators
 /-!
 # C12 – Rule container, iterators and lookups reflect exactly the rules added
 
@@ -33,6 +34,11 @@ several arities, final states without rules) interleaved with the read-only view
   written after the C++ loops and return lists in storage order.
 * The views are pure functions of the store, so "interleaved with the read-only views" adds nothing in the model: a
   theorem about the view after every history is a theorem about every interleaving.
+* **The iterator objects.**  In this file a traversal is "the list of what a complete traversal yields".  The C++ iterator
+  OBJECTS (`Iterator`, `AcceptTransIterator`, `DownAccessorIterator`: `begin()` / `end()`, `operator++`, `operator*`,
+  comparison) are state machines over the store in `Vata/StoreIter.lean`; `Vata/Properties/C12_Iterators.lean` proves them
+  against the list views for every history, and `C12_statement` at the end of this file is the whole property with the
+  loops over the iterator objects in the place of the views.
 -/
 namespace Vata.Props
 open Vata Vata.Store
@@ -131,25 +137,63 @@ theorem C12_refines (ops : List Op) : Refines (run ops) (specRun ops) := refines
 example : run StoreEx.ops1 =
     ⟨[(1, [(7, [[], [1, 1]])]), (2, [(8, [[1, 2]])]), (3, [(7, [[2]])])], [2, 3, 5]⟩ := by decide
 
+/-! ### the property in one statement, with the iterator objects -/
+
+/-- **C12, every clause, for every history of the five mutating calls**: the loop `for (it = begin(); it != end(); ++it)` over
+the automaton terminates without undefined behaviour and yields each distinct rule added since the last `Clear` exactly once
+and nothing else; `ContainsTransition` answers `true` exactly for those rules; the loop over `GetAcceptTrans()` yields exactly
+the rules whose parent is final; the loop over `aut[q]` exactly the rules with parent `q`; `GetUsedStates` is exactly the set
+of states occurring in rules or in the final set; `AreTransitionsEmpty` is `true` exactly when no rule is present -/
+theorem C12_statement (ops : List Op) :
+    (∃ out, iterAll (run ops) = .done out ∧ out.Nodup ∧ ∀ r, r ∈ out ↔ r ∈ (specRun ops).rules) ∧
+    (∀ r, contains (run ops) r = true ↔ r ∈ (specRun ops).rules) ∧
+    (∃ out, acceptAll (run ops) = .done out ∧ out.Nodup ∧
+      ∀ r, r ∈ out ↔ r ∈ (specRun ops).rules ∧ r.parent ∈ (specRun ops).final) ∧
+    (∀ q, ∃ out, downAll (run ops) q = .done out ∧ out.Nodup ∧ ∀ r, r ∈ out ↔ r ∈ (specRun ops).rules ∧ r.parent = q) ∧
+    ((usedStates (run ops)).Nodup ∧ ∀ q, q ∈ usedStates (run ops) ↔
+      q ∈ (specRun ops).final ∨ ∃ r, r ∈ (specRun ops).rules ∧ (q = r.parent ∨ q ∈ r.kids)) ∧
+    (transEmpty (run ops) = true ↔ (specRun ops).rules = []) :=
+  ⟨C12_iterator_protocol_yields_exact ops, C12_contains_exact ops, C12_iterator_protocol_acceptTrans_yields_exact ops,
+    C12_iterator_protocol_down_yields_exact ops, C12_usedStates_exact ops, C12_transitionsEmpty_exact ops⟩
+
+example : iterAll (run StoreEx.ops1) = .done [StoreEx.r1, StoreEx.r2, StoreEx.r3, StoreEx.r4] ∧
+    acceptAll (run StoreEx.ops1) = .done [StoreEx.r3, StoreEx.r4] ∧ downAll (run StoreEx.ops1) 1 = .done [StoreEx.r1, StoreEx.r2] := by
+  decide
+
 /-!
+## closed since the last refresh of this file
+
+* **The iterator protocol** (`begin()` / `end()`, `operator++`, `operator*`, the end state of the three iterators,
+  `DownAccessor::empty()`, partial traversals, iterator comparison): `C12_iterator_protocol`,
+  `C12_iterator_protocol_yields_exact`, `C12_iterator_protocol_comparison`, `C12_iterator_protocol_acceptTrans`,
+  `C12_iterator_protocol_down` (+ the two `…_yields_exact`) in `Vata/Properties/C12_Iterators.lean`; that the unchecked
+  `begin()`s inside `operator++` / `init()` are never taken of an empty container, with the converse:
+  `C20_iterators_never_dereference_empty_partial`, `C20_iterators_stuck_without_invariant_partial`.  The whole property with
+  the iterator objects: `C12_statement`.
+* **"Hash-consing. … that the tuple cache makes pointer equality coincide with tuple equality … is assumed, not modelled"** –
+  the tuple cache is a `Util::Cache<StateTuple>`; the class is modelled as coded and checked against the real class
+  (`Vata/CacheModel.lean`): in every reachable state, for any allocator, two non-null handles are pointer-equal iff the
+  objects they point to have equal values (`Util_Cache_interning`, `Util_Cache_store_bijective`).  What is still missing is
+  the last step: the store model of this file keeps tuples as values and is not stated over cache handles.
+* Sharing with final states, moves and library results (the "Sharing" item): C11, `C11_statement`.
+
 ## not yet proved
 
 Every clause of the statement is a theorem about the model `run` for every history over all five mutating calls (none
 is missing from `Store.Op`).  What the theorems do not say:
 
 * **Order and iterator invalidation.**  The real containers are `unordered_map`s, the model keeps insertion order; the
-  theorems speak about the *set* of yielded rules and "no rule twice" only.  In this file the traversals are abstracted
-  to "the list of what a complete traversal yields"; the C++ iterator objects (`begin()`/`end()`, `operator++`,
-  `operator*`, the end state of `Iterator` / `AcceptTransIterator` / `DownAccessorIterator`, partial traversals, iterator
-  comparison) are modelled and proved against these lists in `Vata/Properties/C12_Iterators.lean`
-  (`C12_iterator_protocol…`).  Iterator invalidation by a mutating call is not modelled.
-* **Hash-consing.**  The model compares child tuples by value; that the tuple cache makes pointer equality coincide with
-  tuple equality (on which `ContainsTransition` and `std::set<TuplePtr>` rely) is assumed, not modelled.
-* **Sharing.**  Here a store is a value; that the views of one object are unaffected by mutations of copies that share
-  storage is C11.
+  theorems speak about the *set* of yielded rules and "no rule twice", and about the iterator objects following the
+  storage order of the container they walk, not about that order being the real one.  An iterator is a triple of indices
+  into ONE store value: what happens to a live iterator when a mutating call (or copy-on-write un-sharing) changes the
+  container is not modelled; incrementing or dereferencing `end()` is `stuck` / `none` (caller errors, nothing is proved
+  about callers never doing so); the comparison of a live `std::set` iterator with a value-initialised one in `operator==`
+  is modelled as "the state is `.fin`".
+* **Between tuple cache and store.**  See above: interning is a theorem about the cache class, value comparison is the
+  store model; no theorem composes the two.
 * **The public wrapper** `ExplicitTreeAut` (alphabet / symbol translation on top of the core) is not modelled; symbols
   are numbers.
-* That `run` and the views are faithful transcriptions of the C++ is established by the correspondence check of the
-  driver only, not by a theorem.
+* That `run`, the views and the iterator state machines are faithful transcriptions of the C++ is established by the
+  correspondence check of the driver only, not by a theorem.
 -/
 end Vata.Props
